@@ -160,7 +160,45 @@ func c10Trial(c *rt.Ctx, sub int, r *rand.Rand, G, procs, opsPer int, yieldMode 
 		var ops []c10Op
 		for k := 0; k < opsPer; k++ {
 			id := g*100000 + k
-			switch rr.Intn(28) {
+			switch rr.Intn(30) {
+			case 28, 29:
+				// sorted and unordered maps through each of the four interpreters: the pooled map
+				// contexts (key/value items, buffers) are shared by all of them
+				ops = append(ops, c10Op{name: "encode:maps-interpreters", run: func() (string, string) {
+					m := map[string]any{}
+					for i := 0; i < 3+id%5; i++ {
+						m[fmt.Sprintf("k%d_%d", id, i)] = map[string]int{fmt.Sprintf("n%d", id): i, "z": id}
+					}
+					var b []byte
+					var err error
+					switch id % 6 {
+					case 0:
+						b, err = gojson.Marshal(m)
+					case 1:
+						b, err = gojson.MarshalIndent(m, "", " ")
+					case 2:
+						b, err = gojson.MarshalWithOption(m, gojson.Colorize(&gojson.ColorScheme{}))
+					case 3:
+						b, err = gojson.MarshalIndentWithOption(m, "", " ", gojson.Colorize(&gojson.ColorScheme{}))
+					case 4:
+						b, err = gojson.MarshalIndentWithOption(m, "", " ", gojson.Colorize(&gojson.ColorScheme{}), gojson.UnorderedMap())
+					default:
+						b, err = gojson.MarshalWithOption(m, gojson.UnorderedMap())
+					}
+					want, _ := stdjson.Marshal(m)
+					var cb bytes.Buffer
+					if err == nil && stdjson.Compact(&cb, b) == nil {
+						b = cb.Bytes()
+					}
+					if id%6 >= 4 && err == nil {
+						// unordered: compare as values
+						var gv, sv any
+						if stdjson.Unmarshal(b, &gv) == nil && stdjson.Unmarshal(want, &sv) == nil && reflect.DeepEqual(gv, sv) {
+							b = want
+						}
+					}
+					return string(b) + errS(err), string(want)
+				}})
 			case 26, 27:
 				// what one Decoder is told through DecodeWithOption / DecodeContext stays with that call:
 				// a first-win decode, a plain decode of the same duplicate-key document and a context
